@@ -14,7 +14,7 @@
 (***************************************************************************)
 EXTENDS RedactorEnv, MongoGrammar
 
-VARIABLES slot, path, leaf, mode
+VARIABLES slot, path, leaf, mode, chunk
 
 CurNT == IF path = << >> THEN SlotNT[slot] ELSE path[Len(path)].nt
 
@@ -76,17 +76,21 @@ Resolve(nt, keys, i) ==
        IN IF child = None THEN << [k |-> k, p |-> nt, nt |-> "bad"] >>
           ELSE << [k |-> k, p |-> nt, nt |-> child] >> \o Resolve(child, keys, i + 1)
 SeedPath(s) == Resolve(SlotNT[s[1]], s[2], 1)
-GoodSeeds == { s \in GMSeeds : LET p == SeedPath(s) IN p # << >> /\ p[Len(p)].nt # "bad" /\ G[p[Len(p)].nt].kinds # {} }
+GoodSeeds(S) == { s \in S : LET p == SeedPath(s) IN p # << >> /\ p[Len(p)].nt # "bad" /\ G[p[Len(p)].nt].kinds # {} }
 
-Init == \/ slot \in GSlots /\ path = << >> /\ leaf = "none" /\ mode = "walk"
-        \/ \E s \in GoodSeeds : /\ slot = s[1] /\ path = SeedPath(s) /\ mode = "seed"
-                                 /\ leaf \in LeafChoices(path[Len(path)].nt)
+\* GMSeeds is a sequence of chunks (sets of seeds): one initial state per chunk, expanded in parallel by TLC's workers
+Init == \/ slot \in GSlots /\ path = << >> /\ leaf = "none" /\ mode = "walk" /\ chunk = 0
+        \/ \E c \in 1..Len(GMSeeds) : slot = "filter" /\ path = << >> /\ leaf = "none" /\ mode = "chunk" /\ chunk = c
+SeedStep == /\ mode = "chunk"
+            /\ \E s \in GoodSeeds(GMSeeds[chunk]) :
+                 /\ slot' = s[1] /\ path' = SeedPath(s) /\ mode' = "seed" /\ chunk' = chunk
+                 /\ leaf' \in LeafChoices(SeedPath(s)[Len(SeedPath(s))].nt)
 \* Bounds: total depth; at most GMTail steps after the last allowed deviation; slots that share their
 \* nonterminal with a canonical slot (query, q ~ filter; u ~ update) only to depth GMShallow - that every slot is
 \* dispatched at all is the business of RedactorEW.
 DevIdx == { i \in 1..Len(path) : path[i].k \in AllKeys(path[i].p) /\ path[i].k \notin RepKeys(path[i].p) }
 LastDev == IF DevIdx = {} THEN 0 ELSE CHOOSE i \in DevIdx : \A j \in DevIdx : j <= i
-Next == /\ mode = "walk" /\ UNCHANGED mode
+Walk == /\ mode = "walk" /\ UNCHANGED <<mode, chunk>>
         /\ Len(path) < GMDepth
         /\ (Deviations < GMWide \/ Len(path) - LastDev < GMTail)
         /\ (slot \in {"query", "q", "u"} => Len(path) < GMShallow)
@@ -95,6 +99,8 @@ Next == /\ mode = "walk" /\ UNCHANGED mode
         /\ \/ \E k \in KeysAt(CurNT) : Extend(k, G[CurNT].k[k])
            \/ (G[CurNT].f # None /\ NFld < GMMaxFld /\ \E uf \in GMFields : Extend(uf, G[CurNT].f))
            \/ (G[CurNT].a # None /\ NArr < GMMaxArr /\ Extend("[]", G[CurNT].a))
+
+Next == Walk \/ SeedStep
 
 Complete == leaf # "none"
 EmitInv == Complete => EmitCaseM("gm", CaseLine, [i \in 1..Len(path) |-> <<path[i].p, path[i].k>>])
